@@ -251,6 +251,9 @@ func cmdCheck(args []string) int {
 			solve(os2, false)
 			for _, o := range os2 {
 				if !(o.Result == o.Expect || (o.Expect == "sat" && (o.Result == "unknown" || o.Result == "timeout"))) {
+					if os.Getenv("FVC_DEBUG_REBIND") != "" {
+						fmt.Fprintf(os.Stderr, "rebind %s: candidate rejected by %s -> %s\n", fc.Key, o.Name, o.Result)
+					}
 					return false
 				}
 			}
@@ -412,6 +415,13 @@ func cmdCheck(args []string) int {
 				return &e.known[i]
 			}
 		}
+		if ck := safetyClassKey(name); ck != "" {
+			for i := range e.known {
+				if e.known[i].Status == "known" && strings.TrimSpace(e.known[i].Guard) != "" && safetyClassKey(e.known[i].Obligation) == ck {
+					return &e.known[i]
+				}
+			}
+		}
 		return nil
 	}
 
@@ -475,6 +485,13 @@ func cmdCheck(args []string) int {
 	// structural problems: functions outside the subset / stale contracts are undecided -> reported as failed obligations
 	var funcs, outside, inlined, externs, natives, noops, notes []string
 	for _, res := range results {
+		if res.Status == "stale" && unexportedFunc(res.Key) {
+			// an unexported helper that no longer exists (inlined at its call sites, or renamed): its contract has nothing
+			// left to speak about. The functions that contained the calls are verified with the code they now contain, so
+			// nothing the property needs is skipped; reported in the evidence, not as a violation.
+			notes = append(notes, "contract of "+res.Pkg+"."+res.Key+" skipped: the unexported function no longer exists (inlined or renamed); its former callers are verified with their current bodies")
+			continue
+		}
 		if res.Status != "ok" {
 			name := res.Pkg + "::" + res.Key + "#" + res.Status
 			if kf := isKnown(name); kf != nil {
@@ -712,4 +729,16 @@ func cmdParams(args []string) int {
 		}
 	}
 	return 0
+}
+
+// unexportedFunc: the function named by a contract key ("f", "T.m", "F$1") is an unexported top-level function or method.
+func unexportedFunc(key string) bool {
+	if strings.Contains(key, "$") {
+		return false
+	}
+	name := key
+	if i := strings.LastIndex(key, "."); i >= 0 {
+		name = key[i+1:]
+	}
+	return name != "" && name[0] >= 'a' && name[0] <= 'z'
 }
